@@ -67,6 +67,8 @@ def run_spec(pid, tier, spec, replay=None):
         cov.setdefault("states", len(classes))
         cov.setdefault("transitions", cov["evaluations"])
         cov.setdefault("traces_validated_against_impl", cov["evaluations"])
+    if timed_out and cov["evaluations"] == 0 and not agg.viol:
+        cannot = cannot or "the deadline (VERIF_DEADLINE_S) was reached before a single case had finished: nothing was explored, nothing is claimed"
     stopped = cov.get("stopped_after_repeated_hangs", 0) > 0
     return c.finish(pid, tier, level, cov, agg.viol, spec["assumptions"], t0, seed, exhaustive=not timed_out and not bad and not stopped, cannot_decide=cannot)
 
